@@ -715,6 +715,7 @@ def _job(job):
 
     cpu0 = time.process_time()
     first = True
+    last = None
     for choices, points, (w, r, viol) in explore(run_fn, bound=bound):
         st["exec"] += 1
         st["trans"] += r["events"]
@@ -736,7 +737,9 @@ def _job(job):
             conflict = any(ld.stats.conflicts_detected for ld in w.leaders)
         else:
             conflict = False
-        st["outcomes"].add(digest(obs))
+        dg = digest(obs)
+        st["outcomes"].add(dg)
+        last = (list(choices), dg, keys)
         if conflict or w.reordered() or overlap(w):
             st["nontriv"] += 1
         for fp, desc in viol:
@@ -749,6 +752,15 @@ def _job(job):
             st["samples"].append({"cfg": cfg, "input": inp, "choices": list(choices),
                                   "choice_points": len([p for p in points if p[0] > 1]),
                                   "final": w.final(keys), "events": r["events"]})
+    # determinism self-check: the last schedule, re-executed without the explorer, must be observed identically
+    if last is not None:
+        w, r, _v = execute(scheme, cfg, inp, Chooser(prefix=last[0]))
+        obs = (w.final(last[2]), [(a["t"], a["value"], sorted(a["snap"].items())) for a in w.acks])
+        if scheme == "chain":
+            obs = obs + ([(t0, n, k, f.at, f.value.get("value") if f.is_resolved else "-")
+                          for (t0, n, k, f) in w.reads if n != "T"],)
+        if digest(obs) != last[1]:
+            raise RuntimeError(f"C17 harness: schedule {last[0]} of {cfg} {inp} is not reproducible")
     st["outcomes"] = len(st["outcomes"])
     st["cpu"] = time.process_time() - cpu0
     return st
